@@ -14,7 +14,7 @@ ASSUMPTIONS = ["reference codec vf/ref/wire.py; 'script the library accepts' is 
 NSHARDS = {"quick": 32, "thorough": 64}
 BUDGET_S = {"quick": 200, "thorough": 1800}
 MIN_HITS = {
-    'quick': {"gen_accepted": 794, "build": 3972, "mutant": 10080, "mutant_accepted": 4150, "coinbase_tx": 69, "count>=253": 20, "scriptlen>=65536": 4},
+    'quick': {"gen_accepted": 797, "build": 3987, "mutant": 10080, "mutant_accepted": 4152, "coinbase_tx": 71, "count>=253": 20, "scriptlen>=65536": 4},
     'thorough': {"gen_accepted": 76894, "build": 384447, "mutant": 1075200, "mutant_accepted": 444103, "coinbase_tx": 6673, "count>=253": 28, "count>=65536": 2, "scriptlen>=65536": 5},
 }
 
